@@ -56,6 +56,7 @@ Variants(S, z, lo) ==
   \o (IF Thick(S) # {} THEN << [g |-> "parallel"] @@ Parallel(S, z, Min(Thick(S))) @@ [lo |-> lo] >> ELSE <<>>)
   \o << [g |-> "zoneswap", S |-> S, z |-> [i \in 1..Len(z) |-> IF z[i] = 1 THEN 2 ELSE IF z[i] = 2 THEN 1 ELSE z[i]], lo |-> lo] >>
   \o << [g |-> "nest", S |-> S, z |-> z, lo |-> lo] >>          \* zone 2 labelled "Z2/U2/V2": three process levels deep
+  \o << [g |-> "dup", S |-> S, z |-> z, lo |-> lo] >>           \* zone k labelled "A<k>/X": the same leaf name in different branches
   \o << [g |-> "translate", S |-> S, z |-> z, lo |-> lo] >>
   \o << [g |-> "scale", S |-> S, z |-> z, lo |-> lo] >>
   \o (IF lo = 0 THEN << [g |-> "mirror", S |-> Mirror(S), z |-> z, lo |-> lo] >> ELSE <<>>)
